@@ -429,7 +429,27 @@ func (x *Exec) trIndex(e *SExpr, env *TrEnv) *Term {
 	return nil
 }
 
+// dottedPath flattens a selector chain of identifiers (a.b.c) into its components.
+func dottedPath(e *SExpr) ([]string, bool) {
+	switch e.Kind {
+	case "id":
+		return []string{e.Name}, true
+	case "sel":
+		p, ok := dottedPath(e.Args[0])
+		if !ok {
+			return nil, false
+		}
+		return append(p, e.Name), true
+	}
+	return nil, false
+}
+
 func (x *Exec) trSel(e *SExpr, env *TrEnv) *Term {
+	if p, ok := dottedPath(e); ok && len(p) >= 3 && p[0] == "fn" {
+		if _, isBound := env.bound["fn"]; !isBound {
+			return V(strings.Join(p, "."), SFn)
+		}
+	}
 	// package-qualified identifier
 	if e.Args[0].Kind == "id" {
 		if _, isBound := env.bound[e.Args[0].Name]; !isBound {
